@@ -397,7 +397,8 @@ def main():
     # ---- lowering cases (C14) ----
     kinds = ["jit", "scan", "while", "fori", "cond", "nested_jit", "grad", "value_and_grad", "vmap",
              "seed_while", "seed_jit", "seed_fori", "seed_ok", "seed_scan_while", "jit_det",
-             "jit_adev", "seed_ok_adev", "seed_scan_adev", "seed_remat", "seed_custom_jvp", "seed_custom_vjp", "seed_remat_jit"]
+             "jit_adev", "seed_ok_adev", "seed_scan_adev", "seed_remat", "seed_custom_jvp", "seed_custom_vjp", "seed_remat_jit",
+             "seed_remat_remat", "seed_remat_custom_jvp", "seed_custom_jvp_remat"]
     from genjax import modular_vmap
     for it in range(5 * len(kinds)):
         k = kinds[it % len(kinds)]
@@ -457,6 +458,16 @@ def main():
                 seed(lambda v: jax.checkpoint(body)(v))(root, 0.5)
             elif k == "seed_remat_jit":
                 jax.jit(seed(lambda v: jax.checkpoint(body)(v)))(root, 0.5)
+            elif k == "seed_remat_remat":
+                seed(lambda v: jax.checkpoint(lambda w: jax.checkpoint(body)(w * 1.0))(v))(root, 0.5)
+            elif k == "seed_remat_custom_jvp":
+                cj2 = jax.custom_jvp(lambda v: body(v))
+                cj2.defjvp(lambda p, t: (cj2(p[0]), t[0]))
+                seed(lambda v: jax.checkpoint(lambda w: cj2(w * 2.0))(v))(root, 0.5)
+            elif k == "seed_custom_jvp_remat":
+                cj3 = jax.custom_jvp(lambda v: jax.checkpoint(body)(v))
+                cj3.defjvp(lambda p, t: (cj3(p[0]), t[0]))
+                seed(lambda v: cj3(v))(root, 0.5)
             elif k == "seed_custom_jvp":
                 cj = jax.custom_jvp(lambda v: body(v))      # (custom_* resolve default arguments: wrap)
                 cj.defjvp(lambda p, t: (cj(p[0]), t[0]))
